@@ -69,7 +69,9 @@ def main():
             if 7 in flagged:
                 feats.append('flag_on_macrobody')
             sig = {'clause': kind, 'errtype': err['type'] if err else None, 'features': '+'.join(feats),
-                   'dedup': '--skip-deduplication' not in meta[tid]['opts'], 'surface': k}
+                   'dedup': '--skip-deduplication' not in meta[tid]['opts'], 'surface': k,
+                   'surface_is_flagged_and_unused': bool(k in flagged and k not in used),
+                   'surface_is_later_duplicate': bool(k == 3 and 3 in flagged)}
             chk.violation(sig, {'text': rec['text'], 'opts': meta[tid]['opts'], 'error': err, 'deck': deck,
                                 'clauses': 'owner,bc', 'flagged': flagged})
     chk.cov['distinct_nontrivial'] = nt
